@@ -89,9 +89,8 @@ pub fn num(v: &Value) -> f32 {
     if let Some(i) = v.as_i64() {
         i as f32
     } else if let Some(o) = v.as_object() {
-        let n = o["n"].as_i64().expect("rational n") as f32;
-        let d = o["d"].as_i64().expect("rational d") as f32;
-        n / d
+        // numerator and denominator may themselves be rationals (division by a rational scalar)
+        num(&o["n"]) / num(&o["d"])
     } else if let Some(f) = v.as_f64() {
         f as f32
     } else {
